@@ -66,7 +66,8 @@ def run(ctx):
             hosts, exp = [], 0
             for j, (kind, code) in enumerate(v):
                 if kind == "ok":
-                    hosts.append(("h%d" % j, "o", "A" + (b"out%d\n" % j + (MARK + b"%d\n" % code if S else b"")).hex(), "-", 0))
+                    # M<code>: the remote shell prints the status line iff the command it received carries pdsh's suffix
+                    hosts.append(("h%d" % j, "o", "A" + (b"out%d\n" % j).hex() + "/M%d" % code, "-", 0))
                     exp = max(exp, code)
                 elif kind == "refuse":      # could not be reached; the transport's teardown may report a code of its own
                     hosts.append(("h%d" % j, "r", "-", "-", code))
@@ -78,7 +79,7 @@ def run(ctx):
                     hosts.append(("h%d" % j, "h", "-", "-", code))
                     exp = max(exp, 254, code)
                 else:
-                    hosts.append(("h%d" % j, "o", "A" + (b"x\n" + (MARK + b"0\n" if S else b"")).hex(), "-", code))
+                    hosts.append(("h%d" % j, "o", "A" + b"x\n".hex() + "/M0", "-", code))
                     exp = max(exp, code)
             if not S:
                 exp = 0
@@ -100,10 +101,10 @@ def run(ctx):
         hosts, anyfail = [], False
         for j, (kind, code) in enumerate(v):
             if kind == "ok":
-                hosts.append(("h%d" % j, "o", "A" + (b"out%d\n" % j + MARK + b"%d\n" % code).hex(), "-", 0))
+                hosts.append(("h%d" % j, "o", "A" + (b"out%d\n" % j).hex() + "/M%d" % code, "-", 0))
                 anyfail |= code != 0
             elif kind == "drc":          # status reported only out of band (transport teardown)
-                hosts.append(("h%d" % j, "o", "A" + (b"x\n" + MARK + b"0\n").hex(), "-", code)); anyfail = True
+                hosts.append(("h%d" % j, "o", "A" + b"x\n".hex() + "/M0", "-", code)); anyfail = True
             elif kind == "refuse":
                 hosts.append(("h%d" % j, "r", "-", "-", code)); anyfail = True
             elif kind == "timeout":
@@ -138,6 +139,54 @@ def run(ctx):
             if not ok:
                 viol("input", {"exec": cmd, "S": S}, "0 without -S; %s with -S" % (code if code is not None else "non-zero"), "exit %d" % rc,
                      "pdsh -R exec %s sh -c %r exited %d (stderr %r)" % ("-S" if S else "", cmd, rc, e[-120:]))
+    # a command that closes its three streams early, outlives the command timeout and one watchdog period, then fails: its
+    # status still counts (the time-out applies to a command that is still being read, not to one that is being reaped)
+    for cmd, code in (("exec 0<&- 1>&- 2>&-; sleep 4; exit 3", 3),) + (() if quick else (("exec 0<&- 1>&- 2>&-; sleep 5; kill -9 $$", None),)):
+        rc, o, e = real.run(["-R", "exec", "-S", "-u", "1", "-w", "h1", "sh", "-c", cmd], timeout=40)
+        stats["exec_runs"] += 1
+        if not (rc == code if code is not None else rc not in (0, -999)):
+            viol("input", {"exec": cmd, "S": True, "command_timeout": 1}, "%s" % (code if code is not None else "non-zero"), "exit %d" % rc,
+                 "pdsh -R exec -S -u 1 sh -c %r exited %d (stderr %r)" % (cmd, rc, e[-160:]))
+    # the command of one target cannot be started (fork fails): that host could not be reached, the run goes on
+    shim = os.path.join(ctx.scratch, "forkfail.so")
+    brc, bout = vlib.sh(["gcc", "-shared", "-fPIC", "-O1", os.path.join(vlib.VERIF, "harness", "forkfail.c"), "-ldl", "-o", shim])
+    if brc == 0:
+        for nth in (1, 2, 3):
+            for flags, want in (([], "0"), (["-S"], "254"), (["-k"], "nonzero")):
+                rc, o, e = real.run(["-R", "exec", "-f", "1"] + flags + ["-w", "h[1-3]", "sh", "-c", "exit 0"], env={"LD_PRELOAD": shim, "FORKFAIL_N": str(nth)}, timeout=30)
+                stats["exec_runs"] += 1
+                ok = (rc == 0) if want == "0" else (rc == 254) if want == "254" else (rc not in (0, -999))
+                if not ok:
+                    viol("input", {"exec": "exit 0", "flags": flags, "fork_failing": nth}, want, "exit %d" % rc,
+                         "pdsh -R exec %s on three hosts where fork() number %d fails exited %d (stderr %r)" % (" ".join(flags), nth, rc, e[-160:]))
+    else:
+        ctx.notes.append("fork-failure part skipped: shim did not build")
+    # the rsh protocol's one-byte status: a daemon that takes the request and goes away without it could not be reached;
+    # in-band status over a real socket transport, with -S and with -k alone
+    try:
+        import C07
+        real.build_module(os.path.join(vlib.REPO, "src/modules/xrcmd.c"), "xrcmd")
+        socks = C07._rsh_server([("127.7.8.1", "shell0"), ("127.7.8.2", "nostatus"), ("127.7.8.3", "shell3")])
+    except OSError as ex:
+        socks = None
+        ctx.notes.append("rsh loopback part skipped: %s" % ex)
+    if socks is not None:
+        try:
+            for hosts, flags, want in (("127.7.8.[1-2]", ["-S"], "254"), ("127.7.8.[1-2]", ["-k"], "nonzero"), ("127.7.8.1", ["-S"], "0"), ("127.7.8.1", ["-k"], "0"),
+                                       ("127.7.8.[1,3]", ["-S"], "3"), ("127.7.8.[1,3]", ["-k"], "nonzero"), ("127.7.8.[1,3]", [], "0"),
+                                       ("127.7.8.[1-3]", ["-S"], "254")):
+                rc, o, e = real.run(["-R", "rsh", "-t", "3"] + flags + ["-w", hosts, "true"], timeout=30)
+                stats["exec_runs"] += 1
+                ok = (rc not in (0, -999)) if want == "nonzero" else rc == int(want)
+                if not ok:
+                    viol("input", {"rsh": hosts, "flags": flags}, want, "exit %d" % rc,
+                         "pdsh -R rsh %s -w %s (127.7.8.1: exit 0; .2: no status byte; .3: exit 3, in-band) exited %d (stderr %r)" % (" ".join(flags), hosts, rc, e[-200:]))
+        finally:
+            for l in socks:
+                try:
+                    l.close()
+                except OSError:
+                    pass
     # refused arguments -> 1
     for args in (["-w", "h1", "-R", "nosuchmodule", "true"], ["-w", "h[1-", "true"]):
         rc, o, e = real.run(args)
